@@ -5,6 +5,7 @@ C08 — Formatting renders the truncated value in the requested shape.
 import Sqroot.Proofs.Format
 import Sqroot.Proofs.Overflow
 import Sqroot.Proofs.EndToEnd
+import Sqroot.Proofs.Format12
 namespace Sqroot.Props.C08
 open Sqroot.Model Sqroot.Proofs
 
@@ -98,5 +99,19 @@ theorem format_spec_arithmetic_fits_int64 (precision exponent verb : Int) (preci
   ⟨Sqroot.Proofs.newFormatSpec_fits_v1 precision exponent verb precisionOk hp he hs,
    Sqroot.Proofs.newFormatSpec_fits_v2 precision exponent verb precisionOk hp he hs,
    Sqroot.Proofs.newFormatSpec_fits_v3 precision exponent verb precisionOk hp he hs⟩
+
+/-- end to end for v1 / v2: `Format` on a Number obtained by any chain of `WithSignificant` calls
+(the pull iterator over the memoizer feeding the formatter) renders the truncated value of the
+chain's window, for every verb, precision, width and flag -/
+theorem format12_end_to_end (ver : Version) (c : MemoCfg) (m : Memo) (v : Val12) (limits : List Int) (e : Int)
+    (hv : applyChain12 (.num .memo e) (limits.map .withSig) = some v)
+    (hnz : v.spec ≠ .nil)
+    (hd : ∀ p, m.src.digit p ≤ 9)
+    (hfit : Fits c m.src (Spec.winOf ((limits.map ViewOp.withSig).map toSpecOp)) 20000)
+    (verb : Nat) (prec width : Option Nat) (minus : Bool) (hprec : prec.getD 16 + e.natAbs < 10000) :
+    ∃ m' txt, format12 ver c m v verb prec width minus = some (.ok (m', txt)) ∧ m'.src = m.src ∧
+      txt = Spec.render verb prec width minus e
+              (numberDigits m.src (Spec.winOf ((limits.map ViewOp.withSig).map toSpecOp)) 20000) :=
+  Sqroot.Proofs.format12_end_to_end ver c m v limits e hv hnz hd hfit verb prec width minus hprec
 
 end Sqroot.Props.C08
